@@ -9,16 +9,27 @@ struct PrimC {
   GridC g;
   SplineC s;
   i64 order = 0, n = 0, kind = 0, type = 0;  // kind 0 Dx<n>, 1 X<n>, 2 identity; type 0 Q, 1 double, 2 long double
+  i64 sexp = 0;  // built-in floats: grid scaled by 2^sexp, coefficient k by 2^(-sexp*k) - the same function on another length scale, every operation still exact
   template <class A>
-  void io(A &a) { a("g", g); a("s", s); a("order", order); a("n", n); a("kind", kind); a("type", type); }
+  void io(A &a) { a("g", g); a("s", s); a("order", order); a("n", n); a("kind", kind); a("type", type); a("sexp", sexp); }
 };
 
 template <class T, size_t order, size_t n, int KINDS>
 static void prim_T(const PrimC &c, vf::Obs &o) {
-  auto grid = make_grid<T>(c.g);
-  const auto s = make_spline<T, order>(grid, c.s);
+  int sexp = 0;
+  if constexpr (std::is_floating_point_v<T>) sexp = (int)std::max<i64>(-110, std::min<i64>(110, c.sexp));  // 2^(110*8) stays finite in double
+  std::vector<T> gv = c.g.values<T>();
+  std::vector<std::array<T, order + 1>> cof(c.s.nint());
+  for (size_t i = 0; i < cof.size(); i++) for (size_t k = 0; k <= order; k++) cof[i][k] = c.s.coeffT<T>(order, i, k);
+  if constexpr (std::is_floating_point_v<T>) if (sexp != 0) {
+    for (auto &v : gv) v = std::ldexp(v, sexp);
+    for (auto &a : cof) for (size_t k = 0; k <= order; k++) a[k] = std::ldexp(a[k], -sexp * (int)k);
+    o.cls(sexp < -53 ? "scale:points-below-epsilon" : sexp < 0 ? "scale:small" : "scale:large");
+  }
+  bspline::support::Grid<T> grid(gv);
+  const bspline::Spline<T, order> s(bspline::support::Support<T>(grid, (size_t)c.s.s, (size_t)c.s.e), cof);
   const auto s0 = s;
-  ref::Fn f = model_of(c.g, c.s, order);
+  ref::Fn f = sexp == 0 ? model_of(c.g, c.s, order) : denote(s);  // scaled: the stored function itself (exact conversion)
   VCHECK(o, ref::first_diff(denote(s), f) == -1, "input spline does not denote the case model (inexact input?)");
   bool nonzero = !ref::is_zero(f);
   bool sub = !(c.s.s == 0 && c.s.e == (i64)c.g.n());
@@ -132,6 +143,7 @@ int main(int argc, char **argv) {
     CoefOpt co; co.dyadic = c.type != 0 && c.type != 4; co.zero_spline_pct = 2;
     c.s = gen_spline(c.g.n(), (size_t)c.order, -1, co);
     if (c.type == 3) c.s.cden = 1;
+    if ((c.type == 1 || c.type == 2) && chance(35)) c.sexp = chance(50) ? -pick(1, 110) : pick(1, 110);  // other length scales, down to grids that lie entirely below machine epsilon
     return c;
   });
   vf::add_sub<PrimC>("primitive-operators", 4000, gen, check_prim);
